@@ -60,6 +60,8 @@ def merge_cov(covs):
 
 def replay(ctx, spec, path):
     """re-run the ops recorded in a replay or witness file through implementation and model"""
+    if "replay" in spec:
+        return spec["replay"](ctx, path)
     if path.endswith(".json"):
         payload = json.load(open(path))
         ops = payload.get("violation", {}).get("ops") or []
